@@ -2,6 +2,7 @@ import RsslVerif.Spec.Roundtrip
 import RsslVerif.Lemmas.FmtParseTables
 import RsslVerif.Lemmas.RoundtripThm
 import RsslVerif.Lemmas.RoundtripFull7
+import RsslVerif.Lemmas.StmtRT4
 /-!
 # C09 — printing a syntax tree and parsing it back are inverse (expression level)
 
@@ -446,5 +447,106 @@ example : ∃ fuel, xparseLvl ["vector", "S"] fuel 15 .Standard (toks (fmtExprX 
 example : xparseAll ["vector", "S"] .Standard (toks (fmtExprX sampleX)) = some (sampleX, []) := by rfl
 
 end Full
+
+/-! # Statements and local variable definitions (`Model/FormatStmt`, `Model/ParseStmt`) -/
+section Statements
+open RsslVerif.Gen.SyntaxTables RsslVerif.Model.FormatFull RsslVerif.Model.ParseFull RsslVerif.Model.FormatStmt
+open RsslVerif.Model.ParseStmt RsslVerif.Lemmas.RoundtripFull RsslVerif.Lemmas.StmtRT
+
+/-- **roundtrip_stmt_partial.** For every statement tree — empty, expression, local variable definition (shared type
+with modifiers and template arguments; several init-declarators with pointer / reference / array declarators and
+expression or (nested, possibly empty) aggregate initialisers), block, `if` / `if`-`else`, `for` with optional init
+(expression or definition), condition and increment, `while`, `do`-`while`, `switch`, `case` / `default` labels,
+`break` / `continue` / `discard` / `return` with and without value — each with attributes (`[a]`, `[[a::b(args)]]`),
+nested to any depth, and every set `W` of type names: the printed tokens followed by a non-empty `rest` are read back by
+the model of `parse_statement` as the tree (never `panic`, never `fail`), by mutual induction over statements,
+statement kinds and statement lists, on top of `roundtrip_xexpr_partial` and the declaration lemmas.
+
+Partial — `WFS` (decidable, syntactic) requires, besides `WF` of every expression:
+* **dangling else**: the true-branch of an `if`-`else` does not end in an `if` without `else` (`openIf`), and the
+  statement itself, when it ends that way, is not followed by `else` (`dangling_else_regroups`: such a tree prints
+  without braces and the `else` re-attaches; neither the parser nor the exporters build one);
+* **declaration or expression**: an expression statement (and a `for` init expression) does not read as a declaration
+  (`declDeadB`: first token no modifier; a leading name is followed by a token that starts no declarator), a definition
+  does not read as an expression statement (`varExprDeadB`: it starts with a keyword modifier or with two names in a
+  row — `T x`, not `T* x` / `T<a> x`, which the real parser answers with `AmbiguousDeclarationOrExpression` and the
+  type checker resolves; a pointer definition in `for` init reads back as an expression: `for_init_pointer_reads_as_expr`);
+* attribute arguments and initialiser expressions without a top-level comma operator (`attribute_comma_regroups`);
+* the declarators the parser has productions for (`WFDecl`), no location annotations, no `StaticSampler`.
+`hsafe` is the `<` condition of `roundtrip_xexpr_partial` for the whole remaining stream. -/
+theorem roundtrip_stmt_partial (W : List String) (s : Stmt) (hwf : WFS W s) (rest : List Tok) (hne : rest ≠ [])
+    (hopen : openIf s = true → ∀ r, rest ≠ .p .Else :: r)
+    (hsafe : hasLtS s = true → TmplFree (toks (fmtStmt s) ++ rest) = true) :
+    ∃ fuel, parseStmt W fuel (toks (fmtStmt s) ++ rest) = .ok s rest := by
+  obtain ⟨N, h⟩ := rs W s hwf rest hne hopen hsafe
+  exact ⟨N, h N (Nat.le_refl _)⟩
+
+/-- **roundtrip_block_partial.** The statements of a function body / block up to and including the closing brace. -/
+theorem roundtrip_block_partial (W : List String) (b : Stmts) (hwf : WFSs W b) (rest : List Tok)
+    (hsafe : hasLtSs b = true → TmplFree (toks (fmtStmts b) ++ .p .RightBrace :: rest) = true) :
+    ∃ fuel, parseStmts W fuel (toks (fmtStmts b) ++ .p .RightBrace :: rest) = .ok b rest := by
+  obtain ⟨N, h⟩ := rss W b hwf rest hsafe
+  exact ⟨N, h N (Nat.le_refl _)⟩
+
+/-- **roundtrip_decl_partial.** A variable definition — type (modifiers, name, template arguments) and a non-empty list
+of init-declarators (named declarators with pointers + `const`/`volatile` qualifiers, references, arrays with and
+without size; no, expression or aggregate initialiser) — printed by `format_variable_definition` in front of `;` is read
+back by `parse_vardef` as the same definition. -/
+theorem roundtrip_decl_partial (W : List String) (v : VarDef) (hwf : WFVarDef W v) (rest : List Tok)
+    (hsafe : hasLtVarDef v = true → TmplFree (toks (fmtVarDef v) ++ .p .Semicolon :: rest) = true) :
+    ∃ fuel, parseVarDef W fuel (toks (fmtVarDef v) ++ .p .Semicolon :: rest) = some (v, .p .Semicolon :: rest) := by
+  obtain ⟨N, h⟩ := varDef_reads W v hwf (.p .Semicolon :: rest) ⟨rest, rfl⟩ hsafe
+  exact ⟨N, h N (Nat.le_refl _)⟩
+
+private def sx (n : String) : Stmt := .mk [] (.expr (.id n))
+
+/-- `IfElse(c, If(d, x;), y;)` prints `if (c) if (d) x; else y;` and reads back as `If(c, IfElse(d, x;, y;))` -/
+theorem dangling_else_regroups :
+    parseStmtAll [] (toks (fmtStmt (.mk [] (.ifElse (.id "c") (.mk [] (.ifS (.id "d") (sx "x"))) (sx "y")))) ++ [.p .RightBrace]) =
+    .ok (.mk [] (.ifS (.id "c") (.mk [] (.ifElse (.id "d") (sx "x") (sx "y"))))) [.p .RightBrace] := by rfl
+
+/-- `[unroll((a, b))] ;` prints `[unroll(a, b)] ;` and reads back with two arguments (real code: known finding) -/
+theorem attribute_comma_regroups :
+    parseStmtAll [] (toks (fmtStmt (.mk [⟨"unroll", .cons (.bin .Sequence (.id "a") (.id "b")) .nil, false⟩] .empty)) ++ [.p .RightBrace]) =
+    .ok (.mk [⟨"unroll", .cons (.id "a") (.cons (.id "b") .nil), false⟩] .empty) [.p .RightBrace] := by rfl
+
+/-- `for (T* p;;) ;` reads back with the init as the expression `T * p` (the expression wins a tie in
+`parse_init_statement`) -/
+theorem for_init_pointer_reads_as_expr :
+    parseStmtAll ["T"] (toks (fmtStmt (.mk [] (.forS (.decl ⟨[], "T", .nil, [⟨.ptr [] (.name "p"), none⟩]⟩) none none (.mk [] .empty)))) ++ [.p .RightBrace]) =
+    .ok (.mk [] (.forS (.expr (.bin .Multiply (.id "T") (.id "p"))) none none (.mk [] .empty))) [.p .RightBrace] := by rfl
+
+/-- non-vacuity: attributes, a definition with three declarators and nested aggregate initialiser, `for` with a
+definition, `if`-`else` chains, `switch` with labels, `do`-`while`, `return` -/
+def sampleStmt : Stmt :=
+  .mk [⟨"loop", .nil, false⟩] (.forS
+    (.decl ⟨[], "int", .nil, [⟨.name "i", some (.expr (.lit ⟨.IntUntyped, false, 0⟩))⟩, ⟨.name "j", none⟩]⟩)
+    (some (.bin .LessThan (.id "i") (.id "n")))
+    (some (.bin .Sequence (.un .PrefixIncrement (.id "i")) (.un .PostfixDecrement (.id "j"))))
+    (.mk [] (.block (.cons
+      (.mk [] (.var ⟨[.Const], "vector", .cons (.both (.id "float") (.mk [] "float" .nil .empty))
+          (.cons (.e (.lit ⟨.IntUntyped, false, 4⟩)) .nil),
+        [⟨.ptr [.Const] (.name "p"), some (.expr (.cast (.mk [] "S" .nil (.ptr [] .empty)) (.id "q")))⟩,
+         ⟨.arr (.name "a") (.bin .Add (.id "n") (.lit ⟨.IntUntyped, false, 1⟩)),
+           some (.agg (.cons (.expr (.lit ⟨.IntUntyped, false, 1⟩)) (.cons (.agg (.cons (.expr (.id "x")) .nil)) (.cons (.agg .nil) .nil))))⟩]⟩))
+      (.cons (.mk [⟨"vk::x", .cons (.lit ⟨.IntUntyped, false, 3⟩) .nil, true⟩]
+        (.ifElse (.id "c")
+          (.mk [] (.block (.cons (.mk [] (.ifS (.id "d") (.mk [] (.expr (.bin .Assignment (.id "x") (.id "y")))))) .nil)))
+          (.mk [] (.ifS (.id "e") (.mk [] .breakS)))))
+      (.cons (.mk [] (.switchS (.id "k") (.mk [] (.block
+        (.cons (.mk [] (.caseS (.lit ⟨.IntUntyped, false, 0⟩) (.mk [] (.caseS (.lit ⟨.IntUntyped, false, 1⟩) (.mk [] (.ret none))))))
+        (.cons (.mk [] (.defaultS (.mk [] (.doWhile (.mk [] .continueS) (.id "w"))))) .nil))))))
+      (.cons (.mk [] (.ret (some (.call (.id "f") .nil (.cons (.id "i") .nil))))) .nil)))))))
+
+theorem sampleStmt_wf : WFS ["int", "vector", "S"] sampleStmt := by
+  simp [sampleStmt, WFS, WFK, WFSs, WFAttrs, WFAttr, WFForInit, WFVarDef, WFInitDecl, WFInit, WFInits, WFOpt, WFDecl, argsLvl,
+    RsslVerif.Lemmas.RoundtripFull.WF, RsslVerif.Lemmas.RoundtripFull.WFA, WFArg, WFTArgs, WFTy, tyName,
+    gtFree, hasLt, XExpr.lvl, Decl.abstr, Decl.needsScope, Decl.startsBracket, openIf, openIfK]
+  decide +kernel
+
+example : ∃ fuel, parseStmt ["int", "vector", "S"] fuel (toks (fmtStmt sampleStmt) ++ [.p .RightBrace]) =
+    .ok sampleStmt [.p .RightBrace] :=
+  roundtrip_stmt_partial _ sampleStmt sampleStmt_wf _ (by simp) (fun _ r h => by cases h) (fun _ => by decide +kernel)
+end Statements
 
 end RsslVerif.Thm.C09
